@@ -380,6 +380,9 @@ func generateWrappers(
 					dumpValueArray(v, "BEFORE", downVmap)
 				}
 				zero(v)
+				// zeroing covers every type a skipped injector would have
+				// produced, which may include our own outputs (the error!)
+				outMap(v, out)
 				if debugEnabled() {
 					dumpValueArray(v, "AFTER", downVmap)
 					debugf("RETURNING %v", err)
